@@ -33,8 +33,12 @@ def run_session(args):
     rnd = random.Random(seed)
     defs = gen_jobdefs(rnd)
     s = None
+    # schedule exploration: widen one of the fork / setpgid race windows of run_pipeline (hook schedule points)
+    delay = rnd.choice(["", "", "child0_pre_setpgid=40", "child1_pre_setpgid=40", "parent_after_fork0=40", "parent_after_fork1=40",
+                        "child0_pre_setpgid=25,parent_after_fork1=25", "child2_pre_setpgid=40"])
     try:
-        s = ptydrv.Session(defs)
+        s = ptydrv.Session(defs, extra_env={"CICADA_VERIF_DELAY": delay} if delay else None)
+        s.records[0]["delay"] = delay
         launched = set()
         for _ in range(nact):
             last = s.records[-1].get("obs") if len(s.records) > 1 else {"prompt": True, "st": {}}
